@@ -327,13 +327,13 @@ def pull_locations_rule(ctx: Ctx, rule: str) -> None:
         if kind == "init":
             n_init += 1
             v = n.value
-            ok = isinstance(v, ast.List) and len(v.elts) == 1 and ast.unparse(v.elts[0]).startswith("':' + self.params.get('shared_pool'")
+            ok = isinstance(v, ast.List) and len(v.elts) == 1 and ast.unparse(v.elts[0]) in ("':' + self.params.get('shared_pool', '.')", "':' + self.params.get('shared_pool')", "':' + self.params['shared_pool']")
             if not ok or not _inside(n, node_loop):
                 problems.append(f"location list initialised with something other than the shared pool: {first_line(n)}")
-        elif kind == "aug":
+        elif kind == "aug" or (kind == "call" and call_name(n) == "append" and len(n.args) == 1):
             n_aug += 1
-            v = n.value
-            ok = isinstance(v, ast.List) and len(v.elts) == 1 and ast.unparse(v.elts[0]) == f"{wid} + ':' + setup_path" and _inside(n, wid_loop)
+            elt = n.args[0] if kind == "call" else (n.value.elts[0] if isinstance(n.value, ast.List) and len(n.value.elts) == 1 else None)
+            ok = elt is not None and ast.unparse(elt) == f"{wid} + ':' + setup_path" and _inside(n, wid_loop)
             if not ok:
                 problems.append(f"location added that is not '<producing worker>:<its pool path>': {first_line(n)}")
         else:
